@@ -287,7 +287,8 @@ class Project:
         dov = tuple(sorted(m.variant.items()))
         dirs = sorted(n for n in self.w.sources if (self.p / n).is_dir() and not (self.p / n).is_symlink())   # sources the user turned into directories
         return json.dumps([files, canon.db_key(self.p), mk, dov, sorted(m.interrupted)] + ([dirs] if dirs else []) +
-                          ([["tolerated"] + sorted(m.tolerated)] if m.tolerated else []),
+                          ([["tolerated"] + sorted(m.tolerated)] if m.tolerated else []) +
+                          ([["fwr"] + sorted(m.failed_while_removed)] if getattr(m, "failed_while_removed", None) else []),
                           sort_keys=True, default=str)
 
 
